@@ -5,18 +5,26 @@ from .. import common as C
 from .. import e2e
 
 MANIFEST = dict(
-    text="Lean 4 theorems over a frame-level state-machine model of h2.c (h2_parse_frames dispatch, per-type "
-         "validation, stream admission/refusal, trailers, GOAWAY/RST semantics, response emission by "
-         "h2_process_streams) checked against an RFC 9113 monitor: HEADERS before DATA, END_STREAM once, "
-         "nothing but RST_STREAM/WINDOW_UPDATE after it, frame size bound, SETTINGS/PING acknowledged, id "
-         "ordering, concurrency limit, connection errors terminal; model tied to the code by end-to-end "
-         "correspondence against the real sanitized server with a raw frame client (exhaustive short frame "
+    text="Lean 4 theorems over (1) a byte-level model of the frame reader of h2.c (h2_parse_frames: 9-octet header, "
+         "size limit, incomplete-frame wait, h2_recv_continuation scan / padding removal / merge) -- segmentation "
+         "independence for ALL splits of the octet stream across reads, round trip against a reference encoder, "
+         "FRAME_SIZE_ERROR / CONTINUATION / padding errors -- and (2) a frame-level state machine of h2.c (dispatch, "
+         "per-type validation, stream admission/refusal, trailers, GOAWAY/RST semantics, response emission by "
+         "h2_process_streams) checked against an RFC 9113 monitor: HEADERS before DATA, END_STREAM once, nothing "
+         "but RST_STREAM/WINDOW_UPDATE after it, frame size bound, SETTINGS/PING acknowledged, id ordering, "
+         "concurrency limit, connection errors terminal; (1) and (2) composed (byte-level connection refines the "
+         "frame-level one under every segmentation).  Tied to the code by an in-process correspondence (real h2.c, "
+         "ASan/UBSan, client octets delivered in scripted read segments: whole, octet-wise, fixed sizes, cuts around "
+         "frame boundaries / header ends / Pad Length octets, all 2^k subsets of the k most interesting cut points) "
+         "and an end-to-end correspondence against the real server with a raw frame client (exhaustive short frame "
          "sequences over an alphabet of valid and invalid frames + random long ones)",
-    note="trusted: Lean kernel, hand-written model validated end-to-end (per quiescence point: control frames, "
-         "per-stream status/DATA totals/END_STREAM), nghttp2 HPACK in the client; HEADERS payloads abstract "
-         "(HPACK is C07); handlers in scope answer at once (static files, error pages); time windows of 2 s "
-         "(half_closed_ts, rapid-reset heuristic) are not advanced inside a scenario; TLS/ALPN entry not covered",
-    tech="Lean 4 proof (invariant + monitor refinement) + e2e correspondence against the real server",
+    note="trusted: Lean kernel, hand-written models validated in-process (every segmentation: identical outcome, = model) "
+         "and end-to-end (per quiescence point: control frames, per-stream status/DATA totals/END_STREAM), nghttp2 HPACK "
+         "in the e2e client, own HPACK mini-encoder in the in-process stream; HEADERS payloads abstract (HPACK is C07); "
+         "handlers in scope answer at once (static files, error pages; scripted producer in-process); time windows of "
+         "2 s (half_closed_ts, rapid-reset heuristic) are not advanced inside a scenario; TLS/ALPN entry not covered",
+    tech="Lean 4 proof (segmentation independence by prefix stability, invariant + monitor refinement) + in-process and "
+         "e2e correspondence against the real code",
     ref="6/C05")
 
 CONF = '''
@@ -53,8 +61,8 @@ def H(sid, status, body, reqlen=0, incr=0, es=1, dep="-", padbad=0, contbad=0, c
         reqlen = -1            # no END_STREAM and no content-length: body length unknown
     if status == 400:
         reqlen = 0             # rejected request: body length forced to 0
-        if (sid // 2) % 2 == 1:
-            incr = 0           # (the variant rejected in mid-block: the priority field behind it is discarded)
+        incr = 0               # (rejected at the first regular field -- missing :path -- or at "te": the
+                               #  priority field behind it is discarded with the rest of the block)
     t = "H:%d:r%d,%d,%d,%d:%d:%s:%d:%d" % (sid, status, body, reqlen, incr, es, dep, padbad, contbad)
     return t if cont is None else t + ":%d" % cont
 
@@ -142,6 +150,16 @@ def gen(ctx, l404, l400, rng=None):
                      % (last, last, H(nxt, 200, 10, es=1), H(nxt + 2, 404, l404, es=1)))
         lines.append("h2 S:0:0:4=0:0 q " + " ".join(evs) + " q S:0:0:4=65535:0 q W:0:4:2000000 q %s %s %s q"
                      % (H(nxt, 200, 10, es=1), H(nxt + 2, 400, l400, es=1), H(nxt + 4, 200, 3000, es=1)))
+    # SETTINGS_INITIAL_WINDOW_SIZE against a live stream whose window the client raised to 2^31-1
+    # (stream 3 keeps its full window: the connection window is used up by stream 1): +1 overflows =>
+    # connection FLOW_CONTROL_ERROR (RFC 9113 6.9.2); the neighbouring value does not
+    two = H(1, 200, 100000) + " q " + H(3, 200, 100000)
+    for v in (65536, 65535, 65537, 0):
+        lines.append("h2 %s q W:3:4:2147418112 S:0:0:4=%d:0 q P:0:0:8 q" % (two, v))
+        lines.append("h2 %s q W:3:4:2147418112 q S:0:0:4=%d:0 %s q" % (two, v, H(5, 200, 10)))
+    lines.append("h2 %s q W:3:4:2147418111 S:0:0:4=65536:0 q P:0:0:8 q" % two)
+    lines.append("h2 %s %s q W:3:4:2147418112 W:5:4:100 S:0:0:4=65536,5=16384:0 q" % (two, H(5, 404, l404)))
+    lines.append("h2 %s q S:0:0:4=2147483647:0 q P:0:0:8 q" % two)
     return lines
 
 
@@ -153,7 +171,7 @@ class MiniHpack:
               (":scheme", "https"): 7}
     STATIC_NAME = {":authority": 1, ":method": 2, ":path": 4, ":scheme": 6, "content-length": 28}
 
-    def __init__(self, index=("x-u",)):
+    def __init__(self, index=("x-u", "x-v")):
         self.dyn = []              # newest first
         self.size = 0
         self.index = set(index)
@@ -279,6 +297,7 @@ def build_frames(c, tok, rng, opened=None, inproc=False, table=None):
             # blocks the server discards (refused streams, rejected requests, trailers) insert
             # entries that later requests reference -- a decoder that loses them goes out of sync
             hs.append(("x-u", "u%d" % (sid // 6)))
+            hs.append(("x-v", "v%d" % (sid // 10)))
             blk = c.hp.encode(hs)
             if table is not None:
                 if blk.hex() in table and table[blk.hex()] != kind:
@@ -496,9 +515,14 @@ class ClientView:
         self.graceful_last = None
         self.err_goaway = False
         self.owed_bytes = 0
+        self.must = None           # first client frame that RFC 9113 makes a connection error (MUST)
+        self.after_must = set()    # streams the client opened after it
+        self.ignorable = set()     # streams opened after a GOAWAY: the server does not track them
+        self.data_sent = 0         # DATA octets the server sent so far (all streams)
 
     def _serr(self, sid, *codes):
         self.serr.setdefault(sid, set()).update(codes)
+        self.serr[sid].add(E_CLOSED)       # (frames still in flight on a stream in error: STREAM_CLOSED)
         if sid in self.st:
             self.st[sid]["disturbed"] = True
 
@@ -506,12 +530,24 @@ class ClientView:
         return sum(1 for sid, s in self.st.items()
                    if not (self.resp.get(sid, [None, 0, 0])[2] or sid in self.srv_rst or s["c_rst"]))
 
+    def _must(self, tok, why):
+        if self.must is None:
+            self.must = (tok, why)
+
     def sent(self, tok, step):
         a = tok.split(":")
         k = a[0]
         if k == "H":
             sid, kind, es, dep, padbad, contbad = int(a[1]), a[2], int(a[3]), a[4], int(a[5]), int(a[6])
             self.n_headers += 1
+            if sid == 0 or sid % 2 == 0:
+                self._must(tok, "HEADERS on stream 0 / an even stream id")
+            elif padbad:
+                self._must(tok, "padding longer than the frame")
+            elif contbad:
+                self._must(tok, "header block not continued by a CONTINUATION frame")
+            elif self.must is not None and sid > self.max_sid:
+                self.after_must.add(sid)
             if self.n_headers > 32:
                 self.conn.add(E_CALM)
             if sid == 0 or sid % 2 == 0 or padbad or contbad:
@@ -550,6 +586,8 @@ class ClientView:
             self.st[sid] = {"status": status, "body": body, "reqlen": reqlen, "c_end": bool(es), "c_rst": False,
                             "disturbed": False, "touched": False, "step": step, "recv": 0, "credit": self.init_win,
                             "after_goaway": self.client_goaway or self.graceful_last is not None}
+            if self.st[sid]["after_goaway"]:
+                self.ignorable.add(sid)
             self.owed_bytes += body        # every response draws on the one connection send window
             if self._unfinished() > ADV_MAX_STREAMS:
                 self.refusable.add(sid)
@@ -558,12 +596,18 @@ class ClientView:
             sid, ln, pad, es = int(a[1]), int(a[2]), a[3], int(a[4])
             if sid == 0 or sid % 2 == 0 or sid > self.max_sid:
                 self.conn.add(E_PROTOCOL)
+                if sid == 0 or sid > self.max_sid:
+                    self._must(tok, "DATA on stream 0 / an idle stream")
                 return
             s = self.st.get(sid)
             if s:
                 s["touched"] = True
+            if sid in self.ignorable:
+                # (a stream opened after a GOAWAY is not tracked: lighttpd takes its frames for frames on an idle stream)
+                self.conn.update((E_PROTOCOL, E_CLOSED))
             if pad != "-" and int(pad) >= ln:
                 self.conn.add(E_PROTOCOL)
+                self._must(tok, "Pad Length not smaller than the DATA frame")
                 return
             if s is None or s["c_end"] or s["c_rst"]:
                 self._serr(sid, E_CLOSED)
@@ -581,19 +625,25 @@ class ClientView:
             sid, ln, inc = int(a[1]), int(a[2]), int(a[3])
             if ln != 4:
                 self.conn.add(E_FSIZE)
+                self._must(tok, "WINDOW_UPDATE of a length other than 4")
             elif sid == 0:
                 if inc == 0:
                     self.conn.add(E_PROTOCOL)
+                    self._must(tok, "WINDOW_UPDATE with increment 0 on stream 0")
                 else:
                     self.conn_credit += inc
                     if self.conn_credit > 0x7fffffff:
                         self.conn.add(E_FLOW)
+                    if self.conn_credit - self.data_sent > 0x7fffffff:
+                        self._must(tok, "connection flow-control window above 2^31-1")
             elif sid % 2 == 0 or sid > self.max_sid:
                 self.conn.add(E_PROTOCOL)
             else:
                 s = self.st.get(sid)
                 if s:
                     s["touched"] = True
+                if sid in self.ignorable:
+                    self.conn.update((E_PROTOCOL, E_CLOSED))
                 if inc == 0:
                     self._serr(sid, E_PROTOCOL)
                     self.conn.add(E_PROTOCOL)
@@ -606,11 +656,16 @@ class ClientView:
             sid, ln = int(a[1]), int(a[2])
             if ln != 4:
                 self.conn.add(E_FSIZE)
+                self._must(tok, "RST_STREAM of a length other than 4")
             elif sid == 0 or sid % 2 == 0 or sid > self.max_sid:
                 self.conn.add(E_PROTOCOL)
+                if sid == 0 or sid > self.max_sid:
+                    self._must(tok, "RST_STREAM on stream 0 / an idle stream")
             elif sid in self.st:
                 self.st[sid]["c_rst"] = True
                 self.st[sid]["disturbed"] = True
+                if sid in self.ignorable:
+                    self.conn.update((E_PROTOCOL, E_CLOSED))
             return
         if k == "Y":
             sid, ln, dep = int(a[1]), int(a[2]), int(a[3])
@@ -619,6 +674,7 @@ class ClientView:
                 self._serr(sid, E_FSIZE)
             elif sid == 0:
                 self.conn.add(E_PROTOCOL)
+                self._must(tok, "PRIORITY on stream 0")
             elif dep == sid:
                 self._serr(sid, E_PROTOCOL)
             return
@@ -626,9 +682,11 @@ class ClientView:
             ack, sid, params, junk = int(a[1]), int(a[2]), a[3], int(a[4])
             if sid != 0:
                 self.conn.add(E_PROTOCOL)
+                self._must(tok, "SETTINGS on a stream other than 0")
             elif ack:
                 if params != "-" or junk:
                     self.conn.add(E_FSIZE)
+                    self._must(tok, "SETTINGS ack with a payload")
                 else:
                     self.conn.add(E_PROTOCOL)      # (acknowledges nothing: the client acked the server's SETTINGS at set-up)
             else:
@@ -636,33 +694,53 @@ class ClientView:
                     for kv in params.split(","):
                         kk, vv = [int(x) for x in kv.split("=")]
                         if kk == 2 and vv > 1:
-                            self.conn.add(E_PROTOCOL); break
+                            self.conn.add(E_PROTOCOL)
+                            self._must(tok, "SETTINGS_ENABLE_PUSH other than 0 or 1"); break
                         if kk == 4:
                             if vv > 0x7fffffff:
-                                self.conn.add(E_FLOW); break
+                                self.conn.add(E_FLOW)
+                                self._must(tok, "SETTINGS_INITIAL_WINDOW_SIZE above 2^31-1"); break
                             self.win_changed = True
-                            for s2 in self.st.values():
+                            stop = False
+                            for i2, s2 in self.st.items():
                                 s2["credit"] += vv - self.init_win
                                 if s2["credit"] > 0x7fffffff:
-                                    self._serr([i for i, x in self.st.items() if x is s2][0], E_FLOW)
+                                    # RFC 9113 6.9.2: a connection error (of the client's making)
+                                    self._serr(i2, E_FLOW)
+                                    self.conn.add(E_FLOW)
+                                    r2 = self.resp.get(i2, [None, 0, 0])
+                                    if not r2[2] and i2 not in self.srv_rst and not s2["c_rst"] and s2["step"] < step \
+                                            and s2["credit"] - r2[1] > 0x7fffffff:
+                                        # certainly live, certainly out of range: the error is mandatory
+                                        self._must(tok, "SETTINGS_INITIAL_WINDOW_SIZE takes the window of stream %d above "
+                                                        "2^31-1" % i2)
+                                        stop = True
                             self.init_win = vv
+                            if stop:
+                                break
                         if kk == 5 and not 16384 <= vv <= 16777215:
-                            self.conn.add(E_PROTOCOL); break
+                            self.conn.add(E_PROTOCOL)
+                            self._must(tok, "SETTINGS_MAX_FRAME_SIZE out of range"); break
                 if junk % 6:
                     self.conn.add(E_FSIZE)
+                    self._must(tok, "SETTINGS payload not a multiple of 6 octets")
             return
         if k == "P":
             if int(a[3]) != 8:
                 self.conn.add(E_FSIZE)
+                self._must(tok, "PING of a length other than 8")
             elif int(a[2]) != 0:
                 self.conn.add(E_PROTOCOL)
+                self._must(tok, "PING on a stream other than 0")
             return
         if k == "G":
             sid, ln, code = int(a[1]), int(a[2]), int(a[3])
             if ln < 8:
                 self.conn.add(E_FSIZE)
+                self._must(tok, "GOAWAY shorter than 8 octets")
             elif sid != 0:
                 self.conn.add(E_PROTOCOL)
+                self._must(tok, "GOAWAY on a stream other than 0")
             else:
                 self.client_goaway = True
                 if code:
@@ -670,8 +748,10 @@ class ClientView:
             return
         if k in ("C", "X"):
             self.conn.add(E_PROTOCOL)
+            self._must(tok, "CONTINUATION without HEADERS" if k == "C" else "PUSH_PROMISE from a client")
         elif k == "O":
             self.conn.add(E_FSIZE)
+            self._must(tok, "frame larger than the advertised SETTINGS_MAX_FRAME_SIZE")
 
     def observe(self, ctl, streams, step):
         for t in ctl:
@@ -691,7 +771,11 @@ class ClientView:
             r = self.resp.setdefault(sid, [None, 0, 0])
             if status is not None:
                 r[0] = status
+                if sid in self.after_must:
+                    return ("a stream opened after a connection error of the client was processed: stream %d, after %s "
+                            "(frame %s)" % (sid, self.must[1], self.must[0]))
             r[1] += data
+            self.data_sent += data
             r[2] |= end
             s = self.st.get(sid)
             if s and r[0] is not None and r[0] != s["status"]:
@@ -743,6 +827,9 @@ def client_oracle(sent_steps, canon_steps, closed=None):
         verdict = v.observe(ctl, streams, i)
         if verdict:
             return verdict
+    if v.must is not None and not v.err_goaway and closed is False:
+        return ("%s is a connection error by RFC 9113, but the server neither sent a GOAWAY with an error code nor "
+                "ended the connection (frame %s)" % (v.must[1], v.must[0]))
     if closed and not seen_goaway:
         return "connection ended by the server without GOAWAY"
     return None
@@ -817,8 +904,37 @@ def run_scenario(port, line, expect, seed):
             canon.append(canon_frames(fr, hp))
     except Exception as ex:       # undecodable response header block
         return None, "response header block does not decode: %s" % ex, frame_steps
-    verdict = monitor(sent_steps, frame_steps) or client_oracle(sent_steps, canon)
+    verdict = monitor(sent_steps, frame_steps) or client_oracle(sent_steps, canon, None if c.closed else False)
     return canon, verdict, frame_steps
+
+
+def preface_split(port, cuts, gap=0.06, wait=8.0):
+    """the client's hello (connection preface + SETTINGS) in len(cuts)+1 TCP writes with pauses, then a GET:
+    returns None or what went wrong"""
+    try:
+        c = e2e.H2Conn(port, send_preface=False)
+    except OSError:
+        return "connect-failed"
+    try:
+        hello = e2e.H2_PREFACE + e2e.h2_settings(())
+        pos = 0
+        for cut in list(cuts) + [len(hello)]:
+            c.send(hello[pos:cut]); pos = cut
+            time.sleep(gap)
+        c.request(1, "GET", "/f10.bin")
+        fr = c.pump(wait, until=lambda f: any(x[0] == 7 for x in f) or any(x[0] == 0 and x[1] & 1 for x in f))
+        if any(x[0] == 7 for x in fr):
+            g = [x for x in fr if x[0] == 7][0]
+            return "GOAWAY(%s)" % E_NAME.get(int.from_bytes(g[3][4:8], "big"), "?")
+        st = e2e.h2_collect(fr, c.hp)
+        if 1 not in st or not st[1]["end"] or len(st[1]["body"]) != 10 or (b":status", b"200") not in st[1]["headers"]:
+            return "no complete 200 response (%s)" % ("connection closed" if c.closed else "timeout")
+        return None
+    finally:
+        c.close()
+
+
+PREFACE_CUTS = [[1], [9], [17], [18], [19], [21], [23], [24], [25], [33], [18, 24], [10, 20, 30]]
 
 
 def run(ctx):
@@ -846,6 +962,19 @@ def run(ctx):
         with ThreadPoolExecutor(10) as ex:
             res = list(ex.map(lambda a: run_scenario(srv.port, a[1][0], a[1][1], ctx.seed * 100003 + a[0]),
                               enumerate(zip(lines, expects))))
+        # the client's hello split across TCP writes (the only segmentation the e2e stream controls)
+        for cuts in PREFACE_CUTS:
+            v = preface_split(srv.port, cuts)
+            if v and "timeout" in v:       # (a loaded machine is not a stalled server: once more, patiently)
+                v = preface_split(srv.port, cuts, gap=0.2, wait=30.0)
+            ctx.evaluations += 1
+            ctx.keys["h2-preface:%s" % ("ok" if v is None else v[:20])] += 1
+            if v and v != "connect-failed":
+                ctx.violation("oracle:h2:preface-depends-on-read-segmentation",
+                              "client connection preface + SETTINGS sent in pieces cut at %s, then a GET: %s; unsplit the "
+                              "same octets are answered 200" % (cuts, v),
+                              {"property": ctx.pid, "kind": "property-oracle", "correspondence": "e2e-h2-preface",
+                               "input": cuts, "impl_obs": v, "oracle_verdict": v}, found=True)
         alive = srv.alive()
     rep = srv.sanitizer_report()
     ndis = 0
@@ -897,9 +1026,12 @@ def run(ctx):
                         "wall_s": round(time.time() - t0, 2)})
     ctx.rule = ("client frame sequences: every sequence of length <= 2 over a %d-frame alphabet (valid and invalid "
                 "frames of every type on stream 0, open, recently closed, idle and even streams) after three "
-                "prefixes, random longer batches, concurrency overflow; distinct = per-step (control frame kinds, "
-                "number of responding streams) signatures" % len(alphabet(0, 0)))
-    ctx.assumptions += ["scenario batches are delivered in one TCP segment (loopback, < 64 KiB)",
+                "prefixes, random longer batches, concurrency overflow (also with header blocks forced into "
+                "CONTINUATION frames); the same scenarios + byte-level ones as octets under many read segmentations "
+                "in-process; distinct = e2e: per-step (control frame kinds, number of responding streams) signatures; "
+                "in-process: (segmentation kind, per-step frame kinds, connection ended) triples" % len(alphabet(0, 0)))
+    ctx.assumptions += ["e2e: scenario batches are delivered in one TCP segment (loopback, < 64 KiB); every other "
+                        "split of the octets across reads is exercised by the in-process stream",
                         "2-second heuristics (recently half-closed, rapid reset) do not expire within a scenario"]
 
 
@@ -909,6 +1041,16 @@ def replay_line(ctx, rep):
         from . import c05_splits
         return c05_splits.replay(ctx, sys.modules[__name__], rep)
     bd, err = e2e.build_server()
+    if rep.get("correspondence") == "e2e-h2-preface":
+        srv = e2e.Server(bd, CONF, modules=())
+        setup_docroot(srv)
+        with srv:
+            v = preface_split(srv.port, rep["input"])
+        print("hello cut at", rep["input"], "->", v or "200, complete")
+        if v:
+            print("VIOLATION property=%s replay=(replayed)" % ctx.pid)
+            return 1
+        return 0
     line = rep["input"]
     mo, rc, merr = C.run_model("h2", [line])
     exp = [canon_model(s) for s in mo[0].split(" / ")]
